@@ -1,4 +1,4 @@
-import Srctools.Model.C14Kv2
+import Srctools.Model.C14Kv2Wf
 /-! # C14 / KeyValues2: the reader on the token stream of a parsed-element tree.
 
 `toksBody p` is the token stream `export_kv2` produces for an element block (after its type name);
@@ -14,13 +14,6 @@ def BC : Nat × Str := (kBRACE_CLOSE, ['}'])
 def BKO : Nat × Str := (kBRACK_OPEN, ['['])
 def BKC : Nat × Str := (kBRACK_CLOSE, [']'])
 def CM : Nat × Str := (kCOMMA, [','])
-
-def elemLit : Str := ['e', 'l', 'e', 'm', 'e', 'n', 't']
-def idLit : Str := ['i', 'd']
-def elementidLit : Str := ['e', 'l', 'e', 'm', 'e', 'n', 't', 'i', 'd']
-def nameLit : Str := ['n', 'a', 'm', 'e']
-def stringLit : Str := ['s', 't', 'r', 'i', 'n', 'g']
-def arrayLit : Str := ['_', 'a', 'r', 'r', 'a', 'y']
 
 def PElem.type : PElem → Str
   | .mk t _ _ _ => t
@@ -59,13 +52,6 @@ structure NameFacts (T : Tables) (fold : Str → Str) : Prop where
   vt : ∀ t, vtOfName T (typeName T t) = some t
   notId : ∀ t, typeName T t ≠ elementidLit ∧ typeName T t ++ arrayLit ≠ elementidLit
   elem : typeName T .element = elemLit
-
-/-- An element type that `_parse_kv2_element` takes for an inline element (not a value type, not
-the id marker, not the literal `element`). -/
-def inlineTypeOK (T : Tables) (fold : Str → Str) (ty : Str) : Bool :=
-  let ft := fold ty
-  let base := match endsWithArray ft with | some b => b | none => ft
-  (vtOfName T base).isNone && ft != elementidLit && ty != elemLit
 
 mutual
 def wfElem (T : Tables) (fold : Str → Str) : PElem → Bool
